@@ -200,7 +200,7 @@ def run(ctx):
     ctx.count("exhaustive_window_complete")
     ctx.require("window_suites_enumerated", 2 * len(suites))
     # (b) boundaries up to 2^18 and random lengths
-    reps = ctx.pick(1, 12)
+    reps = ctx.pick(1, 30)
     for rep in range(reps):
         for i, (c, m) in enumerate(suites):
             if not ctx.mine(i + rep):
